@@ -45,13 +45,18 @@ text the hand-written model was written against) so that the Coq file still type
   s.remove(x)                s := remove x s  ONLY on a path on which `x in s` was tested true (else KeyError)
   s.update(t)                s := union s t         (s must be a set created by set() in this function: no aliasing)
   x in s / x not in s        mem_text x s / negated          (x text, s principals or a set)
-  x in perms                 perm_in x perms   ONLY after the normalisation idiom (see below) was applied to perms
+  x in perms                 perm_in_with gen_is_nonstr_iter gen_all_contains x v   when perms is the value the normalisation
+                             idiom (below) made of the ACE permission field v; WITHOUT the idiom the raw membership
+                             contains gen_all_contains x (Self v)  (a substring test when v is a bare str)
   x == y / x != y            text_eqb x y / negated   (texts; a constant operand is written second)
-  a == Allow / a == Deny     is_allow a / is_deny a   (a an ACE action; `is` is NOT in the table)
+  a == Allow / a == Deny     is_allow a / is_deny a   (a an ACE action; `is` is NOT in the table); the two are
+                             mutually exclusive (the constants differ: checked), so a test of one under the other is resolved
+  (one-shot permission fields) a membership test in the permission field of an ACE may be evaluated at most once on a
+                             path (the field may be a generator); a second evaluation is a Problem, never "the same answer"
   Allow Deny Everyone Authenticated   Allow, Deny (action constants), everyone, authenticated (regenerated texts);
                              their module-level bindings in authorization.py are checked (import from pyramid.security)
-  if not is_nonstr_iter(v): v = [v]     identity, v becomes `normalised`: the model value `what ace` IS the
-                             normalised iterable (a bare str s is PNames [s]; ALL_PERMISSIONS is PAll)
+  if not is_nonstr_iter(v): v = [v]     v := normalise gen_is_nonstr_iter v   (Model/C11_base.v: v itself when the
+                             REGENERATED is_nonstr_iter answers true, else the one-element list [v])
   if v and callable(v): v = v()   (also without `v and`)   identity: a callable __acl__ is represented by the list
                              it returns (the harness calls it once per use; see NOTES.md)
   ACLAllowed(ace, acl, permission, principals, location)   Allowed  i_location i_ace
@@ -60,6 +65,16 @@ text the hand-written model was written against) so that the Coq file still type
                              location's ACL; the other three arguments are stored on the result only (not observed)
   ACLDenied('<text>', acl, permission, principals, context)   DefaultDeny   (first argument a string literal)
   string literals            messages, not modelled (may only be stored in a variable or passed as above)
+
+=== LEAF FUNCTIONS (same translator, boolean result) ====================================================
+  pyramid/util.py  is_nonstr_iter(v)                      -> gen_is_nonstr_iter (v : perms) : bool
+  pyramid/security.py  AllPermissionsList.__contains__(self, other)  -> gen_all_contains (p : text) : bool
+  isinstance(x, str)         is_str x        (x the object in an ACE's permission field; str subclasses included)
+  hasattr(x, '__iter__')     has_iter x      (exactly this attribute name)
+  True / False               true / false
+  other == NAME / 'literal'  text_eqb other <text>   (NAME a module-level str constant of the same file)
+  the class AllPermissionsList of security.py must have exactly the members __iter__, __contains__, __eq__, no bases,
+  no decorators; __iter__ and __eq__ stay shape-pinned (pins.json)
 
 === DELEGATION WRAPPERS (ACLAuthorizationPolicy, the deprecated public wrapper) ==========================
   def __init__(self): self.H = ACLHelper()                       (exactly this; H any attribute name)
@@ -80,7 +95,9 @@ TRANSLATED = ['pyramid/authorization.py:ACLHelper.permits',
               'pyramid/authorization.py:ACLHelper.principals_allowed_by_permission',
               'pyramid/authorization.py:ACLAuthorizationPolicy.__init__',
               'pyramid/authorization.py:ACLAuthorizationPolicy.permits',
-              'pyramid/authorization.py:ACLAuthorizationPolicy.principals_allowed_by_permission']
+              'pyramid/authorization.py:ACLAuthorizationPolicy.principals_allowed_by_permission',
+              'pyramid/util.py:is_nonstr_iter',
+              'pyramid/security.py:AllPermissionsList.__contains__']
 FALLBACK = os.path.join(HERE, 'gen_fallback.json')
 
 # ---- types of the translated fragment
@@ -88,7 +105,7 @@ ACLLIST, LINLIST = 'acl(list)', 'lineage(list)'
 TEXT, SET, SETOWN, ACTION, RAWPERMS, PERMS, ACE, ACL, LOC, LINEAGE, BOOL, DECISION, ERASED, CTX = (
     'text', 'set', 'set(own)', 'action', 'perms(raw)', 'perms', 'ace', 'acl', 'loc', 'lineage', 'bool', 'decision',
     'erased', 'context')
-COQTY = {TEXT: 'text', SET: 'list text', SETOWN: 'list text', ACTION: 'action', RAWPERMS: 'perms', PERMS: 'perms',
+COQTY = {TEXT: 'text', SET: 'list text', SETOWN: 'list text', ACTION: 'action', RAWPERMS: 'perms', PERMS: 'nperms',
          ACE: 'ace', ACL: 'acl', LOC: 'option acl', LINEAGE: 'lineage', BOOL: 'bool', DECISION: 'decision',
          ACLLIST: 'acl', LINLIST: 'lineage'}
 ELEM = {LINEAGE: LOC, LINLIST: LOC, ACL: ACE, ACLLIST: ACE}
@@ -239,11 +256,20 @@ def b_term(b):
     raise Problem('internal: condition %r' % (b,))
 
 
+ONE_SHOT_TESTS = ('perm_in_with', 'contains')
+
+
 def simplify(t, known):
-    """resolve tests already decided on the path; drop ifs with equal branches"""
+    """resolve tests already decided on the path; drop ifs with equal branches.
+    A membership test in an ACE's permission field may CONSUME it (the field may be a one-shot iterator, e.g. a
+    generator): evaluating the same test a second time on a path is not the same as remembering its first answer, so
+    it is a Problem instead of being resolved."""
     if isinstance(t, If):
         ak = t.atom.key()
         if ak in known:
+            if ak[0] == 'A' and ak[1] in ONE_SHOT_TESTS:
+                raise Problem('the permission field of an ACE is tested for membership a second time on one path (it may '
+                              'be a one-shot iterator, which the first test has consumed): %s' % render(t.atom, 0))
             return simplify(t.t if known[ak] else t.e, known)
         a = simplify(t.t, _with(known, ak, True))
         b = simplify(t.e, _with(known, ak, False))
@@ -255,9 +281,15 @@ def simplify(t, known):
     return t
 
 
+EXCLUSIVE = {'is_allow': 'is_deny', 'is_deny': 'is_allow'}
+
+
 def _with(d, k, v):
     d = dict(d)
     d[k] = v
+    # `a == Allow` and `a == Deny` cannot both hold (prop.facts checks that the two constants differ)
+    if v and k[0] == 'A' and k[1] in EXCLUSIVE:
+        d[('A', EXCLUSIVE[k[1]]) + tuple(k[2:])] = False
     return d
 
 
@@ -307,6 +339,12 @@ def paren(t, ind):
 
 
 # ---- the functions and their signatures (parameters are bound by POSITION, so they may be renamed)
+LEAVES = [
+    dict(qual='is_nonstr_iter', file='pyramid/util.py', gen='gen_is_nonstr_iter', ret='bool',
+         params=[(V('v'), 'perms(raw)')], sig='(v : perms) : bool', default='if is_str v then false else has_iter v'),
+    dict(qual='AllPermissionsList.__contains__', file='pyramid/security.py', gen='gen_all_contains', ret='bool',
+         params=[(None, 'erased'), (V('p'), 'text')], sig='(p : text) : bool', default='true'),
+]
 FUNCS = [
     dict(qual='ACLHelper.permits', gen='gen_permits', ret=DECISION,
          params=[(None, ERASED), (None, CTX), (V('ps'), SET), (V('p'), TEXT)],
@@ -319,8 +357,12 @@ FUNCS = [
 GLOBAL_VALUES = {'Allow': (K('Allow'), ACTION), 'Deny': (K('Deny'), ACTION),
                  'Everyone': (K('everyone'), TEXT), 'Authenticated': (K('authenticated'), TEXT)}
 GLOBAL_FUNCS = ('lineage', 'is_nonstr_iter', 'ACLAllowed', 'ACLDenied')
-BUILTINS = ('set', 'list', 'reversed', 'callable', 'AttributeError')
+BUILTINS = ('set', 'list', 'reversed', 'callable', 'AttributeError', 'isinstance', 'hasattr', 'str')
 RESERVED = set(GLOBAL_VALUES) | set(GLOBAL_FUNCS) | set(BUILTINS)
+
+
+def _coq_text(s):
+    return '[' + '; '.join(str(ord(c)) for c in s) + ']%N' if s else '[]'
 
 
 def _ident(s):
@@ -331,8 +373,9 @@ def _ident(s):
 
 
 class FnTranslator:
-    def __init__(self, fn, spec):
+    def __init__(self, fn, spec, extra=None):
         self.fn, self.spec = fn, spec
+        self.extra = dict(extra or {})     # module-level str constants of the file of a leaf function: name -> (term, TEXT)
         self.nloops = 0
         self.loops_by_binder = {}      # element binder -> Loop
         self.some_of = {}              # binder bound by `Some a` -> key of the scrutinee term
@@ -395,6 +438,8 @@ class FnTranslator:
             if not (ty == want or (want == SET and ty == SETOWN)):
                 raise Problem('return of a %s where a %s is expected: %s' % (ty, want, u(s)))
             self.no_consumption(s)
+            if ty == BOOL:
+                return mk_if(obj, K('true'), K('false'))
             return obj
         if isinstance(s, ast.Continue):
             if jumps is None:
@@ -532,9 +577,11 @@ class FnTranslator:
                     and val.elts[0].id == v:
                 if v not in env or env[v][1] not in (RAWPERMS, PERMS):
                     raise Problem('is_nonstr_iter normalisation of something that is not an ACE permission field: %s' % u(s))
+                if env[v][1] != RAWPERMS:
+                    raise Problem('is_nonstr_iter normalisation applied twice: %s' % u(s))
                 self.used_globals.add('is_nonstr_iter')
                 env = dict(env)
-                env[v] = (env[v][0], PERMS)
+                env[v] = (A('normalise', [K('gen_is_nonstr_iter'), env[v][0]]), PERMS)
                 return env
             raise Problem('is_nonstr_iter test with an unexpected body: %s' % u(s))
         # if v and callable(v): v = v()      /     if callable(v): v = v()
@@ -701,11 +748,15 @@ class FnTranslator:
             if n.id in env:
                 obj, ty = env[n.id]
                 return obj, ty
-            if n.id in GLOBAL_VALUES:
+            if n.id in self.extra:
+                return self.extra[n.id]
+            if n.id in GLOBAL_VALUES and not self.spec.get('file'):
                 self.used_globals.add(n.id)
                 return GLOBAL_VALUES[n.id]
             raise Problem('name %s is unbound here (or local to a loop iteration), or outside the table' % n.id)
         if isinstance(n, ast.Constant) and isinstance(n.value, str):
+            if self.spec.get('file') and n.value.isascii():
+                return K(_coq_text(n.value)), TEXT          # leaf functions compare names with literals
             return None, ERASED
         if isinstance(n, ast.Constant) and isinstance(n.value, bool):
             return ('const', n.value), BOOL
@@ -743,11 +794,11 @@ class FnTranslator:
         if isinstance(op, (ast.In, ast.NotIn)):
             if lty == TEXT and rty in (SET, SETOWN):
                 b = b_atom(A('mem_text', [lobj, robj]))
-            elif lty == TEXT and rty == PERMS:
-                b = b_atom(A('perm_in', [lobj, robj]))
+            elif lty == TEXT and rty == PERMS and isinstance(robj, A) and robj.fn == 'normalise':
+                b = b_atom(A('perm_in_with', [K('gen_is_nonstr_iter'), K('gen_all_contains'), lobj, robj.args[1]]))
             elif lty == TEXT and rty == RAWPERMS:
-                raise Problem('membership in ACE permissions that were not normalised with is_nonstr_iter '
-                              '(substring test on a bare str): %s' % u(whole))
+                # no normalisation on this path: Python's own `in` on the raw object (substring test on a bare str)
+                b = b_atom(A('contains', [K('gen_all_contains'), lobj, A('Self', [robj])]))
             else:
                 raise Problem('`in` between a %s and a %s is outside the table: %s' % (lty, rty, u(whole)))
             return b_not(b) if isinstance(op, ast.NotIn) else b
@@ -760,6 +811,19 @@ class FnTranslator:
         if f == 'set' and not n.args:
             self.used_globals.add(f)
             return K('[]'), SETOWN
+        if f == 'isinstance' and len(n.args) == 2 and isinstance(n.args[1], ast.Name) and n.args[1].id == 'str' \
+                and 'str' not in env:
+            obj, ty = self.expr(n.args[0], env)
+            if ty != RAWPERMS:
+                raise Problem('isinstance(.., str) of a %s is outside the table: %s' % (ty, u(n)))
+            self.used_globals.update(('isinstance', 'str'))
+            return b_atom(A('is_str', [obj])), BOOL
+        if f == 'hasattr' and len(n.args) == 2 and isinstance(n.args[1], ast.Constant) and n.args[1].value == '__iter__':
+            obj, ty = self.expr(n.args[0], env)
+            if ty != RAWPERMS:
+                raise Problem('hasattr(.., "__iter__") of a %s is outside the table: %s' % (ty, u(n)))
+            self.used_globals.add('hasattr')
+            return b_atom(A('has_iter', [obj])), BOOL
         if f == 'lineage' and len(n.args) == 1:
             if not iterctx:
                 raise Problem('lineage(..) is a generator: only as a loop iterable or directly inside list(..)')
@@ -1007,10 +1071,91 @@ def find_method(tree, qual):
     return node
 
 
-def translate_source(text):
-    """-> (coq text of the generated definitions, problems, summary)"""
+def module_bindings(tree):
+    """names bound at module level (any statement form), with multiplicity"""
+    out = {}
+    for st in ast.walk(tree):
+        if isinstance(st, (ast.FunctionDef, ast.AsyncFunctionDef, ast.ClassDef)):
+            out[st.name] = out.get(st.name, 0) + 1
+    for st in tree.body:
+        for n in ast.walk(st):
+            if isinstance(n, (ast.FunctionDef, ast.AsyncFunctionDef, ast.ClassDef, ast.Lambda)) and n is not st:
+                continue
+            if isinstance(n, ast.Name) and isinstance(n.ctx, (ast.Store, ast.Del)):
+                out[n.id] = out.get(n.id, 0) + 1
+            if isinstance(n, ast.alias):
+                nm = (n.asname or n.name).split('.')[0]
+                out[nm] = out.get(nm, 0) + 1
+    return out
+
+
+def translate_leaf(spec, text, problems):
+    """-> Gallina body text or None (problems appended)"""
+    rel = spec['file']
+    if text is None:
+        problems.append('translator: cannot read %s' % rel)
+        return None
+    try:
+        tree = ast.parse(text)
+    except SyntaxError as e:
+        problems.append('translator: cannot parse %s: %s' % (rel, e))
+        return None
+    fn = find_method(tree, spec['qual'])
+    if fn is None:
+        problems.append('translator: %s not found (exactly once, at its usual place) in %s' % (spec['qual'], rel))
+        return None
+    binds = module_bindings(tree)
+    top = spec['qual'].split('.')[0]
+    if binds.get(top, 0) != 1:
+        problems.append('translator: %s is bound %d times in %s' % (top, binds.get(top, 0), rel))
+        return None
+    for b in ('isinstance', 'hasattr', 'str', 'True', 'False'):
+        if binds.get(b):
+            problems.append('translator: builtin %s is rebound in %s' % (b, rel))
+            return None
+    if '.' in spec['qual']:
+        cls = [c for c in tree.body if isinstance(c, ast.ClassDef) and c.name == top][0]
+        members = []
+        for st in cls.body:
+            if isinstance(st, ast.Expr) and isinstance(st.value, ast.Constant) and isinstance(st.value.value, str):
+                continue
+            members.append(st.name if isinstance(st, ast.FunctionDef) else '<%s>' % u(st).split('\n')[0][:60])
+        if cls.bases or cls.keywords or cls.decorator_list or sorted(members) != ['__contains__', '__eq__', '__iter__']:
+            problems.append('translator: class %s of %s: bases/decorators/members are %s, expected a plain class with '
+                            'exactly __contains__, __eq__, __iter__' % (top, rel, members))
+            return None
+    # module-level NAME = 'literal' (bound once) may be compared with
+    extra = {}
+    for st in tree.body:
+        if isinstance(st, ast.Assign) and len(st.targets) == 1 and isinstance(st.targets[0], ast.Name) \
+                and isinstance(st.value, ast.Constant) and isinstance(st.value.value, str) \
+                and st.value.value.isascii() and binds.get(st.targets[0].id) == 1:
+            extra[st.targets[0].id] = (K(_coq_text(st.value.value)), TEXT)
+    tr = FnTranslator(fn, spec, extra)
+    try:
+        return render(tr.translate(), 2)
+    except Problem as e:
+        problems.append('translator: %s:%s: %s' % (rel, spec['qual'], e))
+    except RecursionError:
+        problems.append('translator: %s:%s: nesting too deep' % (rel, spec['qual']))
+    return None
+
+
+def translate_source(text, others=None):
+    """text: authorization.py; others: {rel: text} of the files of the LEAVES (missing = unreadable)
+    -> (coq text of the generated definitions, problems, summary)"""
     problems, out, summary = [], [], {}
     fb = load_fallback()
+    others = others or {}
+    for spec in LEAVES:
+        gen = spec['gen']
+        body = translate_leaf(spec, others.get(spec['file']), problems)
+        if body is None:
+            summary[gen] = 'FALLBACK (stored translation of the reference text)'
+            body = fb.get(gen) or spec['default']
+        else:
+            summary[gen] = 'translated from source (%d lines of Gallina)' % (body.count('\n') + 1)
+        out.append('Definition %s %s :=\n  %s.\n' % (gen, spec['sig'], body))
     try:
         tree = ast.parse(text)
     except SyntaxError as e:
@@ -1064,15 +1209,22 @@ def translate_source(text):
     return '\n'.join(out), problems, summary
 
 
-def translate_tree(src_root):
-    path = os.path.join(src_root, 'pyramid/authorization.py')
+def _read(path):
     try:
         with open(path) as f:
-            text = f.read()
-    except OSError as e:
-        coq, problems, summary = translate_source('')
-        return coq, ['translator: cannot read %s: %s' % (path, e)] + problems, summary
-    return translate_source(text)
+            return f.read()
+    except OSError:
+        return None
+
+
+def translate_tree(src_root):
+    others = {spec['file']: _read(os.path.join(src_root, spec['file'])) for spec in LEAVES}
+    path = os.path.join(src_root, 'pyramid/authorization.py')
+    text = _read(path)
+    if text is None:
+        coq, problems, summary = translate_source('', others)
+        return coq, ['translator: cannot read %s' % path] + problems, summary
+    return translate_source(text, others)
 
 
 if __name__ == '__main__':
@@ -1085,6 +1237,10 @@ if __name__ == '__main__':
         for spec in FUNCS:
             tr = FnTranslator(find_method(tree, spec['qual']), spec)
             fbs[spec['gen']] = render(tr.translate(), 2)
+        for spec in LEAVES:
+            pr = []
+            fbs[spec['gen']] = translate_leaf(spec, _read(os.path.join(root, spec['file'])), pr)
+            assert fbs[spec['gen']] and not pr, pr
         with open(FALLBACK, 'w') as f:
             json.dump(fbs, f, indent=1, sort_keys=True)
         print('wrote', FALLBACK)
